@@ -1,6 +1,13 @@
 """Zygote: one interpreter per PYTHONHASHSEED that imports pycaption and the harness,
-executes NO pycaption operation itself, and forks one child per job.  A forked child is
+executes NO pycaption operation itself, and pre-forks one child per job.  A forked child is
 therefore a pristine interpreter with that hash seed (DESIGN section 2).
+
+Pre-fork, not accept-then-fork: the zygote's own loop does nothing but fork() and read one
+byte from a pipe, so its heap is in the same state at every fork.  (An earlier version accepted
+connections in the zygote itself; socket objects and timeout exceptions slowly changed its
+free lists, and a child forked late re-used memory addresses differently from a child forked
+early - visible to code under test that keys anything on id().)  The child blocks in accept(),
+handles exactly one job and exits.
 
 Started as:  PYTHONHASHSEED=<h> PYTHONPATH=<repo>:/verif python -c 'from sim import zygote; zygote.main()' <socket path>
 (not with -m, to avoid a double import of this module).
@@ -35,9 +42,29 @@ def recv_msg(sock):
     return json.loads(_recv_exact(sock, n).decode("ascii"))
 
 
-def _child(conn):
-    from . import ops
+def _die_with_parent():
+    """Linux: deliver SIGKILL to this process when its parent dies (no polling, no timeouts)."""
     try:
+        import ctypes
+        libc = ctypes.CDLL(None, use_errno=True)
+        libc.prctl(1, signal.SIGKILL, 0, 0, 0)   # PR_SET_PDEATHSIG
+    except Exception:
+        pass
+
+
+def _child(srv, wfd, ppid):
+    from . import ops
+    _die_with_parent()
+    if os.getppid() != ppid:
+        os._exit(0)
+    try:
+        conn, _ = srv.accept()          # blocking: no timeout objects, identical work before every job
+    except BaseException:
+        os._exit(0)
+    try:
+        os.write(wfd, b"1")             # tell the zygote to pre-fork the next acceptor
+        os.close(wfd)
+        srv.close()
         # nothing a child prints (bs4 / cssutils warnings) may block on a pipe nobody drains
         devnull = os.open(os.devnull, os.O_WRONLY)
         os.dup2(devnull, 1)
@@ -61,31 +88,30 @@ def main():
     # import everything a child needs *before* forking, execute nothing
     import pycaption  # noqa: F401
     import pycaption.dfxp  # noqa: F401
+    import ctypes  # noqa: F401
     from . import ops, canon, c20  # noqa: F401
     ops.corpus()
+    _die_with_parent()
     signal.signal(signal.SIGCHLD, signal.SIG_IGN)  # auto-reap children
     srv = socket.socket(socket.AF_UNIX, socket.SOCK_STREAM)
     srv.bind(path)
     srv.listen(256)
     sys.stdout.write("READY %s\n" % os.path.abspath(pycaption.__file__))
     sys.stdout.flush()
-    ppid = os.getppid()
-    srv.settimeout(2.0)
-    while True:
-        try:
-            conn, _ = srv.accept()
-        except socket.timeout:
-            if os.getppid() != ppid:  # orchestrator died: do not linger
-                os._exit(0)
-            continue
-        except InterruptedError:
-            continue
+    me = os.getpid()
+    failures = 0
+    while failures < 50:
+        rfd, wfd = os.pipe()
         pid = os.fork()
         if pid == 0:
-            srv.close()
-            conn.settimeout(None)
-            _child(conn)
-        conn.close()
+            os.close(rfd)
+            _child(srv, wfd, me)
+        os.close(wfd)
+        if os.read(rfd, 1):             # returns when the acceptor took a connection (b"" if it died before)
+            failures = 0
+        else:
+            failures += 1
+        os.close(rfd)
 
 
 if __name__ == "__main__":
